@@ -11,6 +11,11 @@ From V Require Import Common.Num.
 
 Inductive phase : Type := Ps | Pl | Pg.
 
+(* phase LABELS of the API: 's', 'l', 'g' and the second solid / liquid phases 'S', 'L' of multi-phase streams *)
+Inductive label : Type := Ls | Ll | Lg | Lus | Lul.
+Definition canonical_phase (l : label) : phase :=
+  match l with Ls | Lus => Ps | Ll | Lul => Pl | Lg => Pg end.
+
 Definition phase_eqb (a b : phase) : bool :=
   match a, b with Ps, Ps | Pl, Pl | Pg, Pg => true | _, _ => false end.
 
@@ -23,11 +28,12 @@ Record Ops (A : Type) : Type := mkOps {
   oofQ : Q -> A;              (* float literal (exact value of the double) *)
   ois0 : A -> bool;           (* x == 0: Python falsiness of a float, ZeroDivisionError test *)
   opos : A -> bool;           (* 0 < x: domain of math.log *)
+  oltb : A -> A -> bool;      (* x < y *)
   olnx : A -> A               (* math.log on its domain (a stand-in over Q) *)
 }.
 Arguments oadd {A} _ _ _. Arguments osub {A} _ _ _. Arguments omul {A} _ _ _.
 Arguments odivx {A} _ _ _. Arguments oneg {A} _ _. Arguments oofQ {A} _ _.
-Arguments ois0 {A} _ _. Arguments opos {A} _ _. Arguments olnx {A} _ _.
+Arguments ois0 {A} _ _. Arguments opos {A} _ _. Arguments oltb {A} _ _ _. Arguments olnx {A} _ _.
 
 Definition pyv (A : Type) : Type := res (option A).
 
@@ -114,6 +120,10 @@ Definition integ (F : phase -> A -> A -> res A) (h : phase) (a b : pyv A) : pyv 
 (* Python truthiness *)
 Definition truthy (x : option A) : bool :=
   match x with Some v => negb (ois0 O v) | None => false end.
+(* a < b, a <= b, a > b, a >= b between two numbers that are known not to be None where the comparison is made
+   (the translator checks that both operands are guarded by a truthiness test on the path) *)
+Definition py_lt (a b : option A) : bool := match a, b with Some u, Some v => oltb O u v | _, _ => false end.
+Definition py_le (a b : option A) : bool := match a, b with Some u, Some v => negb (oltb O v u) | _, _ => false end.
 Definition is_none {B} (x : option B) : bool :=
   match x with Some _ => false | None => true end.
 Definition truthy_fn {B} (f : option B) : bool :=
